@@ -387,6 +387,11 @@ class CookieJar(AbstractCookieJar):
                 else:
                     cookie["expires"] = ""
 
+            else:
+                # A cookie without Max-Age/Expires replaces one that had a
+                # deadline: forget the old deadline or it expires the new cookie.
+                self._expirations.pop((domain, path, name), None)
+
             key = (domain, path)
             if self._cookies[key].get(name) != cookie:
                 # Don't blow away the cache if the same
